@@ -24,6 +24,7 @@ class Run:
         mod = importlib.import_module(f"prsa.props.{prop}")
         self.mod = mod
         self.rep = Report(prop, tier, seed, getattr(mod, "LEVEL", "other"))
+        self.rep.run = self
         self.tier = tier
         self.seed = seed
 
